@@ -233,6 +233,23 @@ CLAIMS = {
          '<= 5 node file lines, <= 4 cores, <= 2 GPUs per node. PBSPro (qstat), CCM '
          '(directory scan), Yarn and Debug RMs are outside the bound.',
     design='4/C18'),
+ 'C20': dict(
+    text='Bounded symbolic execution of the real raptor code: (W1) one '
+         'DefaultWorker._alloc/_dealloc step from an arbitrary occupancy of the '
+         "worker's cores and GPUs; (W2) streams of 3 requests through _request_cb / "
+         '_result_cb with symbolic demands, symbolic completion order while a request '
+         'waits, and a symbolic process-start failure: running requests never share a '
+         'core/GPU, everything is given back, every request is reported exactly once; '
+         '(M1) Master._result_cb (exit code absent / None / symbolic integer, preset '
+         'target state, failing application callback) and Master._submit_tasks routing '
+         'for all 8 mode values; (X1) Worker._dispatch_func/_dispatch_eval/_dispatch_exec '
+         'with payloads that return a symbolic integer, print, write stderr, raise or '
+         'modify os.environ: exit code 0 iff success, value/output/exception reported, '
+         'environment and stdio restored.',
+    note='Trusted: CrossHair/z3 path exhaustion; multiprocessing.Process faked; '
+         'demands within the worker size; _dispatch_proc/_dispatch_shell (real '
+         'sub-processes), MPI workers and request time-outs are outside.',
+    design='4/C20'),
 }
 
 NOT_YET = 'check not built yet in this session (see DESIGN.md section 4 for the plan)'
